@@ -8,6 +8,13 @@ def handleCase (mode : String) (id : Nat) (hdr body : List Sexp) : String :=
   match mode with
   | "futures" => Drv.Futures.handle id hdr body
   | "core" => Drv.Core.handle id hdr body
+  | "chain" =>
+    -- a chain of n tasks, far deeper than the interpreter's recursion limit: value n, one flush iff the leaf awaits an item
+    match hdr, body with
+    | [n, .atom kind], [.list [.atom "result", .atom st, v, fl, clean]] =>
+      let good := st == "ok" && v.nat? == n.nat? && fl.nat? == some (if kind == "item" then 1 else 0) && clean.nat? == some 1
+      if good then s!"R {id} CORR=ok SPEC=ok SPECM=ok | " else s!"R {id} CORR=diff SPEC=fail:deep-chain-{st} SPECM=ok | chain of {n} tasks: {st}"
+    | _, _ => s!"R {id} CORR=diff SPEC=ok SPECM=ok | unparsable chain case"
   | _ => s!"R {id} CORR=diff SPEC=ok SPECM=ok | unknown mode {mode}"
 
 partial def loop (h : IO.FS.Stream) (cur : Option (String × Nat × List Sexp)) (acc : Array Sexp) : IO Unit := do
